@@ -34,6 +34,7 @@ BOUNDS_TBL = {
     "version": (None, None),
     "envelope": (4, 5),
     "confusable": (None, None),
+    "recipient-keys": (None, None),
 }
 BOUNDS = {"quick": "deviation bounds per node scenario: " + ", ".join(f"{k}={'full' if v[0] is None else v[0]}" for k, v in BOUNDS_TBL.items()),
           "thorough": "deviation bounds per node scenario: " + ", ".join(f"{k}={'full' if v[1] is None else v[1]}" for k, v in BOUNDS_TBL.items())}
